@@ -156,9 +156,11 @@ impl RotoReport {
                     }
 
                     for hint in &error.hints {
+                        let hint_text =
+                            &self.files[hint.location.file].contents;
                         let label = Label::new((
                             self.filename(hint.location),
-                            hint.location.start..hint.location.end,
+                            hint.location.character_range(hint_text),
                         ))
                         .with_message(&hint.text)
                         .with_color(Color::Yellow);
@@ -182,10 +184,13 @@ impl RotoReport {
                     let file_text = file_cache.fetch(&file).unwrap().text();
 
                     let labels = error.labels.iter().map(|l| {
+                        // A label can point into another file than the
+                        // one the error itself is located in.
                         let s = self.spans.get(l.id);
+                        let label_text = &self.files[s.file].contents;
                         Label::new((
                             self.filename(s),
-                            s.character_range(file_text),
+                            s.character_range(label_text),
                         ))
                         .with_message(&l.message)
                         .with_color(match l.level {
